@@ -184,3 +184,8 @@ def clock(detector, slot: int = 0, delay_ms: float = 0.0) -> None:
     v = float(detector.pipeline_count) * 1e6 + float(detector.time_step) * 1e3 + float(detector.time)
     LOG.append(("clock", int(slot), "", v, threading.get_ident()))
     _put(detector, slot, v)
+
+
+def pause(detector, ms: float = 1.0) -> None:
+    """sleeps: widens the window between a processor being configured and its later models reading their arguments"""
+    time.sleep(float(ms) / 1000.0)
